@@ -347,12 +347,31 @@ fn dump<'tcx>(tcx: TyCtxt<'tcx>, krate: &str) {
     let mut fns = vec![];
     // Pass 1: clone every built body before anything can trigger borrowck (which steals mir_built).
     let mut bodies = vec![];
-    for def in tcx.hir_body_owners() {
+    // Type-checking a caller of an `async fn` / `-> impl Trait` function asks for the hidden type, which borrow-checks that function and thereby steals its
+    // mir_built: such functions are cloned first; if a body was stolen all the same, the next stage (mir_promoted, still before any optimisation) stands in.
+    let mut owners: Vec<_> = tcx
+        .hir_body_owners()
+        .filter(|d| matches!(tcx.def_kind(*d), DefKind::Fn | DefKind::AssocFn | DefKind::Closure))
+        .collect();
+    owners.sort_by_key(|d| {
+        let k = tcx.def_kind(*d);
+        let opaque = matches!(k, DefKind::Fn | DefKind::AssocFn)
+            && (tcx.asyncness(*d).is_async()
+                || format!("{:?}", tcx.fn_sig(d.to_def_id()).skip_binder().output()).contains("Opaque"));
+        if opaque { 0 } else { 1 }
+    });
+    for def in owners {
         let kind = tcx.def_kind(def);
-        if !matches!(kind, DefKind::Fn | DefKind::AssocFn | DefKind::Closure) {
-            continue;
-        }
-        let body: Body<'tcx> = tcx.mir_built(def).borrow().clone();
+        let built = tcx.mir_built(def);
+        let body: Body<'tcx> = if built.is_stolen() {
+            let promoted = &tcx.mir_promoted(def).0;
+            if promoted.is_stolen() {
+                panic!("mirfacts: neither mir_built nor mir_promoted of {:?} is available", def);
+            }
+            promoted.borrow().clone()
+        } else {
+            built.borrow().clone()
+        };
         bodies.push((def, kind, body));
     }
     let foreign_enums = std::cell::RefCell::new(BTreeMap::new());
